@@ -18,7 +18,7 @@ PROBES = ["workers>1", "switches>0", "multi_file", "unequal_file_sizes", "parque
           "scan_only_key", "four_col_key", "multi_psm_spectra", "fallback_best_feature",
           "brew_raised", "fold_without_accept", "dup_scan_other_mass", "pct_schedule", "pred_chunk_lacks_fold",
           "proba_only_learner", "learner_with_both_methods", "tied_raw_outputs", "same_files_analysed_before_in_process",
-          "trained_models_reused_with_other_seed", "output_on_another_scale", "through_command_line"]
+          "trained_models_reused_with_other_seed", "output_on_another_scale", "through_command_line", "train_set_blocks>=2"]
 
 
 def make_scenario(prop, seed):
@@ -96,6 +96,11 @@ def make_scenario(prop, seed):
         cfg["est_kw"] = {"affine_out": rng.choice([[1000.0, 1e-3], [-5e4, 2.5e-2], [0.0, 1e-9], [3.0, 1e6]])}
     # a fifth of the text scenarios run the same analysis through the command line entry point (mokapot.mokapot.main):
     # the glue between argument parsing, read_pin, the model and brew is then part of what is executed
+    r_blk = random.Random(f"blk|{seed}")
+    if r_blk.random() < 0.4:
+        # the block size make_train_sets uses to build the complement of a fold (5 million rows on the shipped tree,
+        # i.e. a loop that no affordable file ever enters twice) - a knob through the guarded hook in /repo
+        kn["TRAIN_SETS_BLOCK_SIZE"] = datagen.knob_value(r_blk, r_blk.choice(sizes), extra=(folds, 7, 50))
     r_cli = random.Random(f"cli|{seed}")
     if fmt == "pin" and r_cli.random() < 0.2:
         cfg["via_cli"] = True
@@ -164,6 +169,7 @@ def run_scenario(scn, workdir, want):
         "tied_raw_outputs": int(bool((cfg.get("est_kw") or {}).get("round_out") is not None)),
         "output_on_another_scale": int(bool((cfg.get("est_kw") or {}).get("affine_out"))),
         "through_command_line": int(bool(cfg.get("via_cli"))),
+        "train_set_blocks>=2": int(kn.get("TRAIN_SETS_BLOCK_SIZE", 10**9) < max(n_rows)),
         "dup_scan_other_mass": int(bool(scn["data"].get("dup_scan_frac")) and "ExpMass" in scn["data"]["spec_extra"]),
         "pred_chunk_lacks_fold": int(kn.get("CHUNK_SIZE_ROWS_PREDICTION", 10**9) < 2 * cfg["folds"]),
     }
